@@ -318,15 +318,15 @@ func (f *FileManager) putTo(ctx context.Context, b *posinfo.FilestoreNode, to pu
 			return ErrFilestoreNotEnabled
 		}
 
-		//nolint:staticcheck
-		//lint:ignore SA1019 // ignore staticcheck
-		if !filepath.HasPrefix(b.PosInfo.FullPath, f.root) {
-			return fmt.Errorf("cannot add filestore references outside ipfs root (%s)", f.root)
-		}
-
+		// The reference must be inside the root by path components: a plain
+		// string-prefix test would accept siblings such as <root>-other/ and
+		// paths that leave the root through "..".
 		p, err := filepath.Rel(f.root, b.PosInfo.FullPath)
 		if err != nil {
 			return err
+		}
+		if !filepath.IsLocal(p) {
+			return fmt.Errorf("cannot add filestore references outside ipfs root (%s)", f.root)
 		}
 
 		ps := filepath.ToSlash(p)
